@@ -63,7 +63,25 @@ def _date_with(I, a, k):
     return SDateTime(o, sec)
 
 
+def _amount_shaped(I, a, k):
+    from . import rxstruct
+    if rxstruct._AMT is None:
+        rxstruct._AMT = z3.Function('amount_shaped', z3.StringSort(), z3.BoolSort())
+    v = I.resolve(a[0])
+    if isinstance(v, str):
+        import re
+        return re.fullmatch(r'\d*\.?\d+', v) is not None
+    return lib.wrap_bool(rxstruct._AMT(I.term(v)))
+
+
+def _reparse_timex(I, a, k):
+    cls = I.repo.find('Python/libraries/datatypes-timex-expression/datatypes_timex_expression/timex.py::Timex')
+    return I.instantiate(cls, [], {'timex': a[0]})
+
+
 NATIVE = {
+    'amount_shaped': _amount_shaped,
+    'reparse_timex': _reparse_timex,
     'date_with': _date_with,
     'ordinal': _ordinal,
     'date_of_ordinal': _date_of_ordinal,
